@@ -450,6 +450,20 @@ fn derived_buffers(r: &mut Rng, enc: &[u8], n_trunc: usize, n_mut: usize) -> Vec
 
 /// Values of one type: emits value cases and derived malformed cases; checks the property on
 /// the implementation.
+/// round trip, consumed length and self-delimitation of one large value, on the implementation alone
+fn big_roundtrip<T: Encode + Decode + PartialEq>(cx: &mut Ctx, stem: &str, v: &T, len: usize) {
+    let enc = match catch_unwind(AssertUnwindSafe(|| v.encode_vec())) { Ok(e) => e, Err(_) => { cx.fail(format!("{}: encode panicked on a value of {} elements", stem, len), json!({"type": stem, "elements": len})); return; } };
+    let mut buf = vec![0x5Au8; 3]; buf.extend_from_slice(&enc); buf.extend_from_slice(&[1, 2, 3, 4]);
+    for (b, off) in [(&enc, 0usize), (&buf, 3usize)] {
+        let (o, d) = try_decode::<T>(b, off);
+        cx.evals += 1;
+        match (&o, &d) {
+            (Outcome::Ok { end, .. }, Some(d)) if d == v && *end == off + enc.len() => {}
+            _ => { cx.fail(format!("{}: a value of {} elements does not survive encode/decode (decode(encode(x)) != x, or decode consumed another number of bytes than encode produced)", stem, len), json!({"type": stem, "elements": len, "encoded_bytes": enc.len(), "offset": off, "outcome": format!("{:?}", o).chars().take(120).collect::<String>()})); }
+        }
+    }
+}
+
 fn run_type<T: M>(cx: &mut Ctx, stem: &str, coq_ty: &str, codec: &str, eqb: &str, vals: Vec<T>, extra_bufs: Vec<(Vec<u8>, usize)>) {
     let base = cx.base();
     let mut vterms = Vec::new();
@@ -717,6 +731,15 @@ pub fn run(out: &Path, seed: u64, thorough: bool) -> Result<(), Box<dyn std::err
     ];
     run_type::<BytesED>(&mut cx, "bytes", "bytes", "c_bytes", "bytes_eqb", bytes_vals, bytes_bufs.clone());
     run_type::<Vec<u8>>(&mut cx, "vecu8", "(list N)", "(c_vec c_u8)", "bytes_eqb", (0..n(15)).map(|_| g_vec_u8(&mut r, 300)).collect(), bytes_bufs);
+    // long vectors (around 2^16 elements and above), on the implementation alone (the model's vector
+    // codec is uniform in the length; a 70 000-element literal per case would only cost evaluation time)
+    for len in [65_534usize, 65_535, 65_536, 65_537, 70_000, 200_000] {
+        let v: Vec<u8> = (0..len).map(|i| (i * 7 + len) as u8).collect();
+        big_roundtrip::<Vec<u8>>(&mut cx, "vecu8", &v, len);
+        big_roundtrip::<BytesED>(&mut cx, "bytes", &v.clone().into(), len);
+        let st: String = (0..len).map(|i| (b'a' + (i % 26) as u8) as char).collect();
+        big_roundtrip::<String>(&mut cx, "string", &st, len);
+    }
     let mut strs: Vec<String> = STRINGS.iter().map(|s| s.to_string()).collect();
     strs.extend((0..n(30)).map(|_| g_string(&mut r)));
     // invalid and boundary UTF-8, by hand
